@@ -3,8 +3,9 @@
    take as Section variables (hash, MAC, ...); the driver implements it by
    asking the harness over the pipe. *)
 From Coq Require Import List NArith ZArith Bool Ascii String.
-From Authlib Require Import Base.Bytes Base.Base64 Base.BigEndian Base.PyVal Base.Url Base.Percent Base.Utf8.
-From Authlib Require Import Model.JWK Model.Claims Spec.ClaimsSpec Model.Resource Model.Scope Model.ClientAuth Model.Metadata Spec.MetadataSpec Model.Registration.
+From Authlib Require Import Base.Bytes Base.Base64 Base.BigEndian Base.PyVal Base.Url Base.Percent Base.Utf8 Base.Form.
+From Authlib Require Proofs.UrlP.
+From Authlib Require Import Model.JWK Model.Claims Spec.ClaimsSpec Model.Resource Model.Scope Model.ClientAuth Model.Metadata Spec.MetadataSpec Model.Registration Model.Wire.
 Import ListNotations.
 Open Scope string_scope.
 
@@ -214,6 +215,34 @@ Definition dispatch_registration (fn : string) (a : pv) : option pv :=
     Some (PBool (stored_ok (server_md_of (arg "server" a)) (dict_of_pv (arg "metadata" a))))
   else None.
 
+Definition pairs_of_pv (v : pv) : list pair_s :=
+  map (fun x => match pv_list x with [k; w] => (pv_str k, pv_str w) | _ => ("", "") end) (pv_list v).
+Definition pv_of_pairs (l : list pair_s) : pv := PList (map (fun kv => PList [PStr (fst kv); PStr (snd kv)]) l).
+Definition pv_of_presp (r : presp) : pv :=
+  match r with PParams ps => PList [PStr "params"; pv_of_pairs ps] | PErr c => PList [PStr "error"; PStr c] end.
+
+Definition dispatch_wire (fn : string) (a : pv) : option pv :=
+  if String.eqb fn "urlencode" then Some (PStr (urlencode (pairs_of_pv a)))
+  else if String.eqb fn "parse_qsl" then Some (pv_of_pairs (parse_qsl (arg_b "keep_blank" a) (arg_s "qs" a)))
+  else if String.eqb fn "url_decode" then Some (opt_pv pv_of_pairs (url_decode (pv_str a)))
+  else if String.eqb fn "add_params_to_qs" then Some (PStr (add_params_to_qs (arg_s "query" a) (pairs_of_pv (arg "params" a))))
+  else if String.eqb fn "add_params_to_uri" then
+    Some (PStr (add_params_to_uri (arg_s "uri" a) (pairs_of_pv (arg "params" a)) (arg_b "fragment" a)))
+  else if String.eqb fn "prepare_grant_uri" then
+    Some (PStr (prepare_grant_uri (arg_s "uri" a) (arg_s "client_id" a) (arg_s "response_type" a)
+                  (arg_opt_s "redirect_uri" a) (arg_opt_s "scope" a) (arg_opt_s "state" a) (pairs_of_pv (arg "extra" a))))
+  else if String.eqb fn "prepare_token_request" then
+    Some (PStr (prepare_token_request (arg_s "grant_type" a) (arg_s "body" a) (arg_opt_s "redirect_uri" a)
+                  (pairs_of_pv (arg "kwargs" a))))
+  else if String.eqb fn "encode_basic" then Some (PStr (encode_basic (arg_s "id" a) (arg_s "secret" a)))
+  else if String.eqb fn "parse_code_response" then
+    Some (pv_of_presp (parse_authorization_code_response (arg_s "uri" a) (arg_opt_s "state" a)))
+  else if String.eqb fn "parse_implicit_response" then
+    Some (pv_of_presp (parse_implicit_response (arg_s "uri" a) (arg_opt_s "state" a)))
+  else if String.eqb fn "request_args" then Some (opt_pv pv_of_pairs (request_args (pv_str a)))
+  else if String.eqb fn "comp_wf" then Some (PBool (Proofs.UrlP.comp_wf (urlparse (pv_str a))))
+  else None.
+
 Definition dispatch (fn : string) (a : pv) : pv :=
   if String.eqb fn "oracle_echo" then oracle "echo" a else
   match dispatch_jwk fn a with
@@ -239,6 +268,9 @@ Definition dispatch (fn : string) (a : pv) : pv :=
   | None =>
   match dispatch_registration fn a with
   | Some r => r
+  | None =>
+  match dispatch_wire fn a with
+  | Some r => r
   | None => err ("unknown function " ++ fn)
-  end end end end end end end end.
+  end end end end end end end end end.
 End D.
